@@ -12,8 +12,10 @@ package main
 
 import (
 	"fmt"
-	"os"
+	"runtime"
 	"sort"
+	"sync"
+	"sync/atomic"
 	"time"
 
 	"verifharness/cmd/c19/chain"
@@ -110,6 +112,182 @@ func runChain(o *vh.Opts, res *vh.Result, cases *vh.Cases, cr *vh.Rand, p chain.
 	cases.Add(chain.CoqCase(cfg, init, ops, steps), map[string]any{"chain": ci, "cfg": cfg, "ops": ops})
 }
 
+// concurrent: free-running readers call Center.State / StateBytes while the main goroutine writes new
+// blocks and runs the ticker steps of Center.start (mergePermanent + cleanRemoved(3)).  Oracle (the last
+// sentence of the property): per reader and key the returned heights never decrease, and every answer
+// lies between the latest committed state when the read began and the latest one when it ended.
+// A read is never made to span more than 3 merges (the retention the code itself documents: the last 3
+// removed temps are kept "for safe concurrency"): after every 3 merges the ticker waits for the reads in
+// flight (theorem C19_concurrent_state has the same hypothesis).
 func concurrent(o *vh.Opts, res *vh.Result, r *vh.Rand) {
-	_ = os.Stdout
+	rounds := o.Pick(6, 60)
+	for round := 0; round < rounds; round++ {
+		cr := vh.NewRand(r.U64())
+		nkeys := cr.Range(4, 7)
+		w := chain.NewWorld(cr, nkeys, 3, 3)
+		p := chain.Params{Blocks: cr.Range(25, 45), NKeys: nkeys, NIn: 3, NKn: 3, StartSuf: true}
+		ops, _ := chain.GenerateWrites(cr, w, p)
+		blocks := make([]*chain.Blk, 0, len(ops))
+		for _, op := range ops {
+			blocks = append(blocks, op.B)
+		}
+		// latest[k][h] = id of the latest state of key k among blocks 0..h (-1 none)
+		latest := make([][]int64, nkeys)
+		for k := range latest {
+			latest[k] = make([]int64, len(blocks))
+			cur := int64(-1)
+			for h, b := range blocks {
+				switch {
+				case k == 0 && b.Suf != nil:
+					cur = int64(b.Suf.StateID)
+				case k == 1 && b.Pol != nil:
+					cur = int64(b.Pol.StateID)
+				}
+				for _, s := range b.States {
+					if s.Key == k {
+						cur = int64(s.ID)
+					}
+				}
+				latest[k][h] = cur
+			}
+		}
+		heightOf := map[int64]int64{} // state id -> block height
+		for h, b := range blocks {
+			if b.Suf != nil {
+				heightOf[int64(b.Suf.StateID)] = int64(h)
+			}
+			if b.Pol != nil {
+				heightOf[int64(b.Pol.StateID)] = int64(h)
+			}
+			for _, s := range b.States {
+				heightOf[int64(s.ID)] = int64(h)
+			}
+		}
+		d := chain.NewDB(w, []int{0, 1, 100}[cr.Intn(3)])
+		var committed, started atomic.Int64
+		committed.Store(-1)
+		started.Store(-1)
+		write := func(i int) bool {
+			started.Store(int64(i))
+			ok, err := d.Write(blocks[i], cr.Chance(1, 2))
+			if err != nil || !ok {
+				res.Fail("concurrent-write-failed", fmt.Sprintf("round %d block %d: ok=%v err=%v", round, i, ok, err), map[string]any{"seed": o.Seed, "round": round})
+				return false
+			}
+			committed.Store(int64(i))
+			return true
+		}
+		next := 0
+		for ; next < 8; next++ {
+			if !write(next) {
+				return
+			}
+		}
+		var inflight sync.RWMutex
+		var stop atomic.Bool
+		var wg sync.WaitGroup
+		var mu sync.Mutex
+		nreads := 0
+		fail := func(class, desc string) {
+			mu.Lock()
+			defer mu.Unlock()
+			res.Fail(class, desc, map[string]any{"seed": o.Seed, "round": round})
+		}
+		for rd := 0; rd < 4; rd++ {
+			wg.Add(1)
+			go func(rd int) {
+				defer wg.Done()
+				rr := vh.NewRand(uint64(round*100 + rd + 1))
+				last := make([]int64, nkeys) // last height seen per key
+				for i := range last {
+					last[i] = -1
+				}
+				n := 0
+				for !stop.Load() {
+					k := rr.Intn(nkeys)
+					inflight.RLock()
+					lo := committed.Load()
+					var id int64
+					if rr.Bool() {
+						id = chain.ImplReader{D: d}.State(k)
+					} else {
+						id = chain.ImplReader{D: d}.StateBytes(k)
+						if id >= 0 {
+							if id%4 != 3 {
+								fail("concurrent-state-bytes", fmt.Sprintf("round %d key %d: bytes triple %d", round, k, id))
+							}
+							id /= 4
+						}
+					}
+					hi := started.Load()
+					inflight.RUnlock()
+					n++
+					want0, want1 := latest[k][lo], latest[k][hi]
+					switch {
+					case id == chain.ResErr || id == chain.ResGarbage:
+						fail("concurrent-state-error", fmt.Sprintf("round %d key %d: result %d", round, k, id))
+					case id == chain.ResNotFound:
+						if want0 >= 0 {
+							fail("concurrent-state-stale", fmt.Sprintf("round %d key %d: not found, but state %d (height %d) was committed before the read began", round, k, want0, heightOf[want0]))
+						}
+					default:
+						h := heightOf[id]
+						if want0 >= 0 && h < heightOf[want0] {
+							fail("concurrent-state-stale", fmt.Sprintf("round %d key %d: state of height %d returned, height %d was committed before the read began", round, k, h, heightOf[want0]))
+						}
+						if want1 < 0 || h > heightOf[want1] {
+							fail("concurrent-state-future", fmt.Sprintf("round %d key %d: state of height %d returned, newest written is %d", round, k, h, want1))
+						}
+						if h < last[k] {
+							fail("concurrent-state-nonmonotone", fmt.Sprintf("round %d key %d reader %d: height %d after height %d", round, k, rd, h, last[k]))
+						}
+						last[k] = h
+					}
+				}
+				mu.Lock()
+				nreads += n
+				mu.Unlock()
+			}(rd)
+		}
+		merges := 0
+		for next < len(blocks) || merges%3 != 0 {
+			switch c := cr.Intn(10); {
+			case c < 4 && next < len(blocks):
+				if !write(next) {
+					stop.Store(true)
+					wg.Wait()
+					return
+				}
+				next++
+			default:
+				merged, err := d.MergePerm()
+				if err != nil {
+					fail("concurrent-merge-error", err.Error())
+				}
+				if err := d.Clean(3); err != nil {
+					fail("concurrent-clean-error", err.Error())
+				}
+				if merged {
+					merges++
+				} else if next >= len(blocks) {
+					merges = 0
+				}
+				if merges%3 == 0 {
+					inflight.Lock() // wait for the reads in flight: no read spans more than 3 merges
+					inflight.Unlock() //nolint:staticcheck //...
+				}
+			}
+			if cr.Chance(1, 3) {
+				runtime.Gosched()
+			}
+		}
+		time.Sleep(2 * time.Millisecond)
+		stop.Store(true)
+		wg.Wait()
+		d.Close()
+		res.Evaluations += nreads
+		res.Distribution["concurrent_reads"] += nreads
+		res.Distribution["concurrent_merges"] += merges
+		res.Dist("concurrent_rounds")
+	}
 }
